@@ -23,6 +23,7 @@ DOC = {
  "C08.R5": "ActorPortSet::drop calls close() and a draining try_recv() loop on every receiver-typed field of the struct",
  "C08.R6": "thread-local spawner: the start task travels only inside the abort-on-drop wrapper (reply element type, wrap-before-send); the wrapper is alive across the caller's await and disarmed only after it; its Drop aborts when armed",
  "C08.R8": "= C11.R1 + C11.R2: `it is in no process group` -- group/monitor insertions re-check the status under the actor's relations lock, and the exit drains the reverse index under that lock after publishing the status",
+ "C08.R10": "link() inserts into a child set (and sets the supervisor slot) only for a child whose status is below Stopping: an exiting cell publishes Stopping before it unlinks itself, so no later link can re-attach a cell whose one-shot cleanup already ran (`in no supervisor's child set`)",
  "C08.R9": "cancellation after start-up: the loop task is created by the caller's own future (Send), or, when another task creates it (thread-local), it first awaits an acknowledgement channel whose sender is a local of the caller's future",
  "C08.R7": "= C01.R3 + C04.R7: no loop task unless pre_start returned Ok; mark_running only after pre_start Ok (no event for a failed start)",
 }
@@ -246,6 +247,18 @@ def r9(run, db):
                       rt, "a deferred constructor (%s) run by another task" % deferred[0].id.split("::")[-2:]), blk.where())
 
 
+def r10(run, db):
+    """a cell that has begun to exit cleans up exactly once (status Stopping is published *before* it unlinks itself): the
+    detachment is final only because link() refuses such a child from then on"""
+    from . import c07
+    res = c07.link_child_gates(run, db)
+    for c, child_g, adm in res:
+        late = [v for v in adm if v in ("Stopping", "Stopped")]
+        run.check(bool(child_g) and not late, "link-refuses-exiting-child", "link() inserts the child only when its status is below Stopping (child-side gates admit %s)" % adm,
+                  "link() can insert a child whose status is %s (%s): a cell whose start-up already failed (its cleanup ran and will never run again) linked late -- e.g. `spawn_instant` + `link` racing a failing pre_start -- stays in the supervisor's child set and keeps a supervisor pointer for ever" % (
+                      late or "anything", "no child-side status gate dominates the insertion" if not child_g else "child-side gates admit %s" % adm), c.where())
+
+
 Q = ["dflt", "rc"]
 TH = ["dflt", "rc", "atr", "astd", "mon"]
-RULES = [{"id": "C08.R%d" % i, "fn": f, "quick": Q, "thorough": TH} for i, f in enumerate([r1, r2, r3, r4, r5, r6, r7, r8, r9], 1)]
+RULES = [{"id": "C08.R%d" % i, "fn": f, "quick": Q, "thorough": TH} for i, f in enumerate([r1, r2, r3, r4, r5, r6, r7, r8, r9, r10], 1)]
